@@ -3,6 +3,7 @@ package grl
 import (
 	"errors"
 	"fmt"
+	"math"
 	"reflect"
 	"strings"
 	"time"
@@ -769,6 +770,90 @@ func (m *Model) evalBfn(e *Expr) (interface{}, error) {
 			return rv.IsNil(), nil
 		}
 		return false, nil
+	}
+	floats := func(n int) ([]float64, error) {
+		if n >= 0 && len(args) != n {
+			return nil, merr("%s arity", e.Fn)
+		}
+		out := make([]float64, len(args))
+		for i, a := range args {
+			f, ok := a.(float64) // exact Go type needed
+			if !ok {
+				return nil, merr("%s needs float64 arguments", e.Fn)
+			}
+			out[i] = f
+		}
+		return out, nil
+	}
+	switch e.Fn {
+	case "Max", "Min":
+		fs, err := floats(-1)
+		if err != nil {
+			return nil, err
+		}
+		v := 0.0
+		for i, f := range fs {
+			if i == 0 || (e.Fn == "Max" && f > v) || (e.Fn == "Min" && f < v) {
+				v = f
+			}
+		}
+		return v, nil
+	case "Abs", "Floor", "Ceil", "Round", "Trunc":
+		fs, err := floats(1)
+		if err != nil {
+			return nil, err
+		}
+		switch e.Fn {
+		case "Abs":
+			return math.Abs(fs[0]), nil
+		case "Floor":
+			return math.Floor(fs[0]), nil
+		case "Ceil":
+			return math.Ceil(fs[0]), nil
+		case "Round":
+			return math.Round(fs[0]), nil
+		default:
+			return math.Trunc(fs[0]), nil
+		}
+	case "StringContains":
+		if len(args) != 2 {
+			return nil, merr("StringContains arity")
+		}
+		a, ok1 := args[0].(string)
+		b, ok2 := args[1].(string)
+		if !ok1 || !ok2 {
+			return nil, merr("StringContains needs strings")
+		}
+		return strings.Contains(a, b), nil
+	case "GetTimeYear", "GetTimeMonth", "GetTimeDay":
+		if len(args) != 1 {
+			return nil, merr("%s arity", e.Fn)
+		}
+		t, ok := args[0].(time.Time)
+		if !ok {
+			return nil, merr("%s needs a time", e.Fn)
+		}
+		switch e.Fn {
+		case "GetTimeYear":
+			return t.Year(), nil
+		case "GetTimeMonth":
+			return int(t.Month()), nil
+		default:
+			return t.Day(), nil
+		}
+	case "IsTimeBefore", "IsTimeAfter":
+		if len(args) != 2 {
+			return nil, merr("%s arity", e.Fn)
+		}
+		a, ok1 := args[0].(time.Time)
+		b, ok2 := args[1].(time.Time)
+		if !ok1 || !ok2 {
+			return nil, merr("%s needs times", e.Fn)
+		}
+		if e.Fn == "IsTimeBefore" {
+			return a.Before(b), nil
+		}
+		return a.After(b), nil
 	}
 	return nil, merr("unknown built-in %s", e.Fn)
 }
